@@ -124,6 +124,10 @@ class SocketPort(BaseIOPort):
             raise OSError(err.args[1]) from err
 
     def _close(self):
+        # The file objects made by makefile() keep the connection open
+        # until they are closed too.
+        self._rfile.close()
+        self._wfile.close()
         self._socket.close()
 
 
